@@ -131,7 +131,7 @@ Theorem c01_exists_counts :
   exists_count now d args n = n + len (filter (fun k => eng_exists now d k) (bulks_of args)).
 Proof. exact exists_count_spec. Qed.
 
-(** SETRANGE with an empty value (e0df64a) changes nothing and answers the current length - 0 for a
+(** SETRANGE with an empty value (6988c1c) changes nothing and answers the current length - 0 for a
     missing key, which is not created, WRONGTYPE for another type - for every offset, also one
     beyond the 512 MB limit; the answer is STRLEN's *)
 Theorem c01_setrange_empty_changes_nothing :
@@ -142,7 +142,7 @@ Theorem c01_setrange_empty_is_strlen :
   h_setrange d [FBulk nm; FBulk k; FBulk a; FBulk []] = h_strlen d [FBulk nm'; FBulk k].
 Proof. exact setrange_empty_is_strlen. Qed.
 
-(** SET: EX and PX exclude each other (0e6458f) - in either order, whatever the two counts and
+(** SET: EX and PX exclude each other (d6b03fb) - in either order, whatever the two counts and
     whatever follows, the command is refused and nothing is stored *)
 Theorem c01_set_ex_px_exclusive :
   forall now d nm k v a b tail,
@@ -150,7 +150,7 @@ Theorem c01_set_ex_px_exclusive :
   h_set now d (FBulk nm :: FBulk k :: FBulk v :: FBulk (bs "PX") :: FBulk a :: FBulk (bs "EX") :: b :: tail) = (r_err, d).
 Proof. exact set_ex_px_refused. Qed.
 
-(** SETEX / PSETEX (0bd9e72): a count of 0 is refused and stores nothing; whatever they do store
+(** SETEX / PSETEX (02eb367): a count of 0 is refused and stores nothing; whatever they do store
     has its deadline strictly in the future *)
 Theorem c01_setex_zero_refused :
   forall m now d parts a, nth_arg parts 2 = Some a -> parse_u64 a = Some 0 ->
@@ -162,7 +162,7 @@ Theorem c01_setex_deadline_in_future :
   get_entry d' k = Some e -> exists t, e_exp e = Some t /\ now < t.
 Proof. exact setex_deadline_future. Qed.
 
-(** Integers of the INCR family (5887f54): the canonical decimal text only.  Every i64 has one and
+(** Integers of the INCR family (e4bcfd7): the canonical decimal text only.  Every i64 has one and
     it reads back as that number; nothing else is read as a number; so a stored string is
     incremented only if it is exactly what [print_int] writes for some i64. *)
 Theorem c01_canonical_roundtrip :
@@ -228,7 +228,7 @@ Example c01_set_ex0_refused :
   h_set 0 empty_db [FBulk (bs "SET"); FBulk (bs "a"); FBulk (bs "1"); FBulk (bs "PX"); FBulk (bs "0")] = (r_err, empty_db).
 Proof. vm_compute. split; reflexivity. Qed.
 
-(** ---- repaired e0df64a, 0e6458f, 0bd9e72, 5887f54: regression examples ---- *)
+(** ---- repaired 6988c1c, d6b03fb, 02eb367, e4bcfd7: regression examples ---- *)
 Definition c01_abc : db := snd (h_set 0 empty_db [FBulk (bs "SET"); FBulk (bs "e"); FBulk (bs "abc")]).
 Example c01_setrange_empty_value :
   h_setrange c01_abc [FBulk (bs "SETRANGE"); FBulk (bs "e"); FBulk (bs "10"); FBulk []] = (r_int 3, c01_abc) /\
